@@ -650,7 +650,15 @@ def run_arity_enforcement(rec, F, S):
                 # except the Variadic arm's take(arity) which must be completed by a loop over args[arity..])
                 names_in = [lastseg(t["f"]) for bi, t in fn.calls() if bi in reg]
                 nvalid = names_in.count("is_valid")
-                limiting = [n_ for n_ in names_in if n_ in ("take", "skip", "step_by", "take_while", "skip_while", "nth")]
+                def _whole(t_):
+                    # take(args.len()) limits nothing
+                    if lastseg(t_["f"]) != "take" or len(t_["args"]) < 2:
+                        return False
+                    d_ = sem.desc_operand(fn, t_["args"][1])
+                    while isinstance(d_, tuple) and d_ and d_[0] == "cast":
+                        d_ = d_[1]
+                    return isinstance(d_, tuple) and ((d_[0] == "un" and d_[1] == "PtrMetadata" and d_[2] == ("arg", 2)) or (d_[0] == "call" and d_[1] == "len" and d_[2] and d_[2][0] == ("arg", 2)))
+                limiting = [lastseg(t["f"]) for bi, t in fn.calls() if bi in reg and lastseg(t["f"]) in ("take", "skip", "step_by", "take_while", "skip_while", "nth") and not _whole(t)]
                 rest_loop = any(lastseg(t["f"]) == "index" and "RangeFrom" in t["f"] + t["g"] for bi, t in fn.calls() if bi in reg)
                 if var == "Variadic":
                     okc = nvalid >= 2 and rest_loop and limiting in ([], ["take"])
